@@ -37,13 +37,13 @@ func init() {
 type iv struct{ lo, hi *big.Rat }
 
 type level struct {
-	Restr string `json:"restr"` // range/length text; "" none; "pattern:x" ; "length:.." on a number = inapplicable
-	Def   string `json:"def"`   // default at this level; "" none (use "\x00" never)
-	HasDef bool  `json:"hasdef"`
+	Restr  string `json:"restr"` // range/length text; "" none; "pattern:x" ; "length:.." on a number = inapplicable
+	Def    string `json:"def"`   // default at this level; "" none (use "\x00" never)
+	HasDef bool   `json:"hasdef"`
 }
 
 type chain struct {
-	Base   string  `json:"base"` // int8 uint8 int64 uint64 decimal64/N string
+	Base   string  `json:"base"`   // int8 uint8 int64 uint64 decimal64/N string
 	Levels []level `json:"levels"` // typedefs outermost first, last = leaf
 }
 
@@ -295,7 +295,7 @@ func (c chain) reference() refResult {
 
 type valCtx struct{}
 
-func (valCtx) ErrorHelpText() []string     { return nil }
+func (valCtx) ErrorHelpText() []string    { return nil }
 func (valCtx) AllowIncompletePaths() bool { return false }
 
 var reSingleMinMax = regexp.MustCompile(`(^|\|)\s*(min|max|min\s*\.\.\s*min|max\s*\.\.\s*max)\s*(\||$)`)
@@ -663,8 +663,66 @@ func runWideBoundaries(c *engine.Ctx) {
 	}
 }
 
+// runDefaultSpellings: "a default that the final type rejects is refused at compile time" read as a
+// consistency statement that needs no reference: a chain with the default D compiles iff the leaf type of
+// the same chain compiled without a default accepts D - for spellings on which a compile-time reading
+// and the run-time reading of a number could differ (leading zeros, 0x, signs, blanks, underscores).
+func runDefaultSpellings(c *engine.Ctx) {
+	for _, base := range []string{"int8", "uint8", "int64", "uint64", "decimal64/2"} {
+		for _, restr := range []string{"", "1..8", "9..20", "0..7 | 10..16"} {
+			for _, d := range []string{"010", "-010", "0x10", "0X8", "08", "0b11", "1_0", "+5", "+010", " 5", "5 ", "5.0", "1e1", "0", "-0", "00", "8", "10", "16", "007"} {
+				for _, where := range []int{0, 1} {
+					with := chain{Base: base, Levels: []level{{Restr: restr}, {}}}
+					with.Levels = append([]level{}, with.Levels...)
+					with.Levels[where].Def, with.Levels[where].HasDef = d, true
+					id := "defspell:" + with.yang()
+					if !c.Owns(id) || !c.Case(id) {
+						continue
+					}
+					c.Add("states", 1)
+					c.Add("transitions", 2)
+					c.Nontrivial()
+					vs, outcome := checkDefaultSpelling(with, where)
+					c.Outcome(outcome)
+					for _, v := range vs {
+						c.Report(v)
+					}
+				}
+			}
+		}
+	}
+}
+
+// checkDefaultSpelling: where = the level that carries the default.
+func checkDefaultSpelling(with chain, where int) (vs []engine.Violation, outcome string) {
+	base, d := with.Base, with.Levels[where].Def
+	without := chain{Base: with.Base, Levels: append([]level{}, with.Levels...)}
+	without.Levels[where].Def, without.Levels[where].HasDef = "", false
+	r0 := gen.Compile(map[string]string{"a": without.yang()}, gen.Options{})
+	if !r0.OK() || r0.MS.Child("l") == nil {
+		return nil, "defspell:base-chain-does-not-compile"
+	}
+	var verr error
+	var pn any
+	func() {
+		defer func() { pn = recover() }()
+		verr = r0.MS.Child("l").Type().Validate(valCtx{}, []string{"l", d}, d)
+	}()
+	r1 := gen.Compile(map[string]string{"a": with.yang()}, gen.Options{})
+	outcome = fmt.Sprintf("defspell:type-accepts=%v:compiles=%v", verr == nil, r1.OK())
+	switch {
+	case pn != nil || r1.Verdict() == "panic" || r1.Verdict() == "nonterminating":
+		vs = append(vs, engine.Violation{Key: "panic:default-spelling:" + base, Witness: with.yang(), Detail: fmt.Sprint(pn, r1.Panic), Harness: "defspell", Replay: engine.JSON(with)})
+	case (verr == nil) != r1.OK():
+		vs = append(vs, engine.Violation{Key: fmt.Sprintf("default-verdict-differs-from-the-final-type:%s:type-accepts=%v", strings.SplitN(base, "/", 2)[0], verr == nil), Witness: with.yang(),
+			Detail: fmt.Sprintf("the type of the chain without default: Validate(%q) = %v; the chain with this default: %s %v", d, verr, r1.Verdict(), r1.Err), Harness: "defspell", Replay: engine.JSON(with)})
+	}
+	return vs, outcome
+}
+
 func run(c *engine.Ctx) {
 	runFamilies(c)
+	runDefaultSpellings(c)
 	runMinMaxSpellings(c)
 	runUnorderedSpellings(c)
 	runWideBoundaries(c)
@@ -756,6 +814,19 @@ func run(c *engine.Ctx) {
 func replay(c *engine.Ctx, sub string, raw json.RawMessage) []engine.Violation {
 	if sub == "defchain" {
 		return replayDefChain(raw)
+	}
+	if sub == "defspell" {
+		var ch chain
+		if json.Unmarshal(raw, &ch) != nil || len(ch.Levels) == 0 {
+			return []engine.Violation{{Key: "harness-bad-replay-file"}}
+		}
+		for w, l := range ch.Levels {
+			if l.HasDef {
+				vs, _ := checkDefaultSpelling(ch, w)
+				return vs
+			}
+		}
+		return nil
 	}
 	if sub == "family" {
 		var f family
